@@ -7,6 +7,7 @@ CONSTANTS
   SwResetExitElemV = TRUE
   SwValStructArgPtr = TRUE
   SwNestedSourceTag = TRUE
+  SwEmptyRecordSourceTag = TRUE
   SwRunAllTests = TRUE
   SwSoftPT = "run"
 INIT Init
